@@ -182,6 +182,7 @@ func driveIterMap(opt *Options) error {
 	}
 	keys := []string{"a", "b", "c", "d", "e", "f"}
 	nIt := 8
+	driveIterMapTypes(tw)
 	driveIterMapLarge(tw, rnd)
 	for v := 0; v < 4; v++ {
 		driveIterMapManyIters(tw, rnd, v)
@@ -687,4 +688,161 @@ func driveIterMapCrowd(tw *TraceWriter, n int) {
 	}
 	do(Step{"op": "First"})
 	do(Step{"op": "Len"})
+}
+
+// ---- other instantiations in the same process -------------------------------------------------------
+// The traces drive Map[string,int].  A process usually holds maps of several instantiations at once - also with
+// interface-typed keys or values - and whatever the instantiations share behind the scenes must not mix them up.
+// One fixed script (adds, a refused duplicate, gets, removals during an iteration, First, Len) runs on each
+// instantiation, interleaved with the others, and is compared with a plain slice; the Types line of the trace carries
+// the number of replies that differed.
+
+type imTypedRun struct {
+	step  func(i int) int // runs step i of the script, returns the number of wrong replies
+	steps int
+}
+
+func imTyped[K comparable, V any](mkK func(int) K, mkV func(int) V, eqV func(a, b V) bool) imTypedRun {
+	m := iterable.NewMap[K, V]()
+	type kv struct {
+		k K
+		v V
+	}
+	var ref []kv
+	find := func(k K) int {
+		for i, e := range ref {
+			if e.k == k {
+				return i
+			}
+		}
+		return -1
+	}
+	var it iterable.Iterator[iterable.MapEntry[K, V]]
+	pos := 0 // index in ref of the next element the open iterator will deliver
+	script := []func() int{}
+	add := func(n int) {
+		script = append(script, func() int {
+			k, v := mkK(n), mkV(n)
+			err := m.Add(k, v)
+			if find(k) >= 0 {
+				return b2i(err == nil)
+			}
+			ref = append(ref, kv{k, v})
+			return b2i(err != nil)
+		})
+	}
+	get := func(n int) {
+		script = append(script, func() int {
+			v, ok := m.Get(mkK(n))
+			i := find(mkK(n))
+			if (i >= 0) != ok || ok && !eqV(v, ref[i].v) {
+				return 1
+			}
+			return b2i(m.Len() != len(ref))
+		})
+	}
+	remove := func(n int) {
+		script = append(script, func() int {
+			m.Remove(mkK(n))
+			if i := find(mkK(n)); i >= 0 {
+				ref = append(ref[:i:i], ref[i+1:]...)
+				if it != nil && i < pos {
+					pos--
+				}
+			}
+			return b2i(m.Len() != len(ref))
+		})
+	}
+	open := func() { script = append(script, func() int { it = m.Iterator(); pos = 0; return 0 }) }
+	next := func() {
+		script = append(script, func() int {
+			has := it.HasNext()
+			e, ok := it.Next()
+			if has != (pos < len(ref)) || ok != has {
+				return 1
+			}
+			if ok {
+				w := b2i(e.Key != ref[pos].k || !eqV(e.Value, ref[pos].v))
+				pos++
+				return w
+			}
+			return 0
+		})
+	}
+	closeIt := func() { script = append(script, func() int { it.Close(); it = nil; return 0 }) }
+	first := func() {
+		script = append(script, func() int {
+			k, ok := m.First()
+			return b2i(ok != (len(ref) > 0) || ok && k != ref[0].k)
+		})
+	}
+	for n := 1; n <= 6; n++ {
+		add(n)
+	}
+	add(3)
+	get(2)
+	get(9)
+	open()
+	next()
+	next()
+	remove(2)
+	remove(3)
+	next()
+	add(7)
+	first()
+	remove(1)
+	first()
+	next()
+	next()
+	next()
+	next()
+	next()
+	closeIt()
+	for n := 1; n <= 7; n++ {
+		remove(n)
+		get(n)
+	}
+	first()
+	add(8)
+	add(9)
+	open()
+	next()
+	closeIt()
+	get(8)
+	return imTypedRun{step: func(i int) int { return script[i]() }, steps: len(script)}
+}
+
+type imStringer struct{ n int }
+
+func (s imStringer) String() string { return fmt.Sprint(s.n) }
+
+type imErr struct{ n int }
+
+func (e imErr) Error() string { return fmt.Sprint("e", e.n) }
+
+func driveIterMapTypes(tw *TraceWriter) {
+	wrong := 0
+	p, pv := callPanics(func() {
+		runs := []imTypedRun{
+			imTyped(func(n int) string { return fmt.Sprint("k", n) }, func(n int) any { return n }, func(a, b any) bool { return a == b }),
+			imTyped(func(n int) string { return fmt.Sprint("k", n) }, func(n int) error { return imErr{n} }, func(a, b error) bool { return a == b }),
+			imTyped(func(n int) string { return fmt.Sprint("k", n) }, func(n int) fmt.Stringer { return imStringer{n} }, func(a, b fmt.Stringer) bool { return a == b }),
+			imTyped(func(n int) any { return n }, func(n int) int { return n }, func(a, b int) bool { return a == b }),
+			imTyped(func(n int) fmt.Stringer { return imStringer{n} }, func(n int) string { return fmt.Sprint(n) }, func(a, b string) bool { return a == b }),
+			imTyped(func(n int) int { return n }, func(n int) *int { return &n }, func(a, b *int) bool { return *a == *b }),
+			imTyped(func(n int) [2]int { return [2]int{n, -n} }, func(n int) []byte { return []byte{byte(n)} }, func(a, b []byte) bool { return string(a) == string(b) }),
+			imTyped(func(n int) string { return fmt.Sprint(n) }, func(n int) string { return fmt.Sprint("v", n) }, func(a, b string) bool { return a == b }),
+			imTyped(func(n int) string { return fmt.Sprint(n) }, func(n int) struct{} { return struct{}{} }, func(a, b struct{}) bool { return true }),
+		}
+		for i := 0; i < runs[0].steps; i++ {
+			for _, r := range runs { // step i of every instantiation, then step i+1 ...
+				wrong += r.step(i)
+			}
+		}
+	})
+	ev := map[string]any{"op": "Types", "instantiations": 9, "wrong": wrong}
+	if p {
+		ev["crash"] = firstLine(fmt.Sprint(pv))
+	}
+	tw.Emit(ev)
 }
